@@ -8,7 +8,8 @@ Set Warnings "-notation-overridden,-ambiguous-paths".
 From mathcomp Require Import all_ssreflect all_algebra.
 From mathcomp Require Import ssrZ zify.
 Set Warnings "notation-overridden,ambiguous-paths".
-From LP Require Import UPolySpec MPolySpec CoefficientSpec.
+From LP Require Import CoefficientObs.
+From LP Require Import UPolySpec MPolySpec CoefficientSpec CoefficientObsSpec.
 Import GRing.Theory.
 Local Open Scope ring_scope.
 Delimit Scope Z_scope with SZ.
@@ -270,6 +271,36 @@ Print Assumptions C01_upoly_eval_integer.
 Theorem C01_upoly_canonical : forall p : seq Z, polyseq (Poly p) = pnorm p.
 Proof. exact polyseq_Poly_pnorm. Qed.
 Print Assumptions C01_upoly_canonical.
+
+(* ===== 7. Observers / small transformers of the univariate type (API coverage): the reference predictions of
+   CoefficientObs.v in {poly Z}.  (The multivariate observers is_linear, lc chain, reductum, get_coefficient,
+   to_univariate_m, monomial gcd are compared with the library by the correspondence only.) *)
+Theorem C01_upoly_subst_x_neg : forall p : seq Z, Poly (psubst_neg p) = Poly p \Po (- 'X) :> {poly Z}.
+Proof. exact Poly_psubst_neg. Qed.
+Print Assumptions C01_upoly_subst_x_neg.
+Theorem C01_upoly_subst_x_pow : forall (n : nat) (p : seq Z), (0 < n)%N ->
+  Poly (psubst_pow n p) = Poly p \Po 'X^n :> {poly Z}.
+Proof. exact Poly_psubst_pow. Qed.
+Print Assumptions C01_upoly_subst_x_pow.
+Theorem C01_upoly_construct_power : forall (d : nat) (c : Z), Poly (ppower d c) = c *: 'X^d :> {poly Z}.
+Proof. exact Poly_ppower. Qed.
+Print Assumptions C01_upoly_construct_power.
+Theorem C01_upoly_reverse_coef : forall (p : seq Z) (i : nat), (i < size (pnorm p))%N ->
+  (Poly (preverse p))`_i = (Poly p)`_((size (pnorm p)).-1 - i).
+Proof. exact Poly_prev_coef. Qed.
+Print Assumptions C01_upoly_reverse_coef.
+Theorem C01_upoly_sgn_at_integer : forall (p : seq Z) (x : Z), psgn_at_int None p x = Z.sgn ((Poly p).[x]).
+Proof. exact psgn_at_int_horner. Qed.
+Print Assumptions C01_upoly_sgn_at_integer.
+(* sign at a rational / dyadic point a/b, b > 0: the sign of b^len * p(a/b) = \sum_i c_i a^i b^(len-i) *)
+Theorem C01_upoly_sgn_at_rational : forall (p : seq Z) (a b : Z), (0 < b)%SZ ->
+  psgn_at_rat p a b = Z.sgn (hom_sum p a b).
+Proof. exact psgn_at_rat_spec. Qed.
+Print Assumptions C01_upoly_sgn_at_rational.
+Theorem C01_upoly_hom_eval : forall (p : seq Z) (a b : Z),
+  (peval_hom_aux p a b).2 = b ^+ size p /\ (peval_hom_aux p a b).1 * b = hom_sum p a b.
+Proof. exact peval_hom_aux_spec. Qed.
+Print Assumptions C01_upoly_hom_eval.
 
 (* ===== non-vacuity *)
 Example C01_ex_wf : mp_wf [:: ([:: (1%num, 1%num)], (-2)%SZ); ([:: (0%num, 2%num); (1%num, 1%num)], 3%SZ); ([::], 5%SZ)] = true.
